@@ -130,8 +130,8 @@ CLAIMED = {
         "loaded type comes from and which frontends a saved type goes to (P-level) and transcribes the loops of "
         "_get_partial_loader_for / _add_saver; the harness compares loader origins, savers per frontend and each directory's "
         "contents after a real run.",
-   note="Trusted: TLC; stored subsets prepared by copying data made under an all-ALWAYS policy. Scope: chain, multi-output and diamond "
-        "graphs of <=4 types, 9 policy assignments, all stored subsets x targets x save= x 6 modifiers x forbid settings "
+   note="Trusted: TLC; stored subsets prepared by copying data made under an all-ALWAYS policy. Scope: chain, multi-output (one / both outputs consumed, one through an "
+        "ExhaustPlugin) and diamond graphs of <=5 types, 12 policy assignments, all stored subsets x targets x save= x 6 modifiers x forbid settings "
         "(quick tier executes a seeded sample of the enumerated requests, thorough all).",
    technique="TLA+ definitional oracle + transcription checked by TLC, replay of enumerated requests into the real Context",
    design="4/C11"),
@@ -232,10 +232,16 @@ CLAIMED = {
         "threaded runs under OS threads and under the deterministic scheduler with seeded schedules); TLC judges every yielded "
         "stream and every data type the request stored (re-read by a fresh context) against the P-level (DataflowTrace.tla): "
         "contiguous tiling of the run, rows inside their tiles, concatenated rows = whole-run result. The per-plugin alignment "
-        "machinery is verified at I-level in C08 / C09 / C07, the mailboxes in C05.",
+        "machinery is verified at I-level in C08 / C09 / C07, the mailboxes in C05. The single-thread processor's bus has its own "
+        "specification, spec/PostOffice.tla (a transcription of _read / _fetch_new / the acknowledgements, producers wired the way "
+        "SingleThreadProcessor wires plugins, loaders and savers; external readers pulling in every order; a producer failing at every "
+        "position; invariants: every reader gets its topic's messages in order exactly once, every spy too and is closed exactly once, "
+        "retained mail = what some reader has not received, termination): every state and edge of TLC's state graph is replayed "
+        "lock-step on the real PostOffice and the office's state compared.",
    note="The configuration product is sampled (seeded), not enumerated; multiprocessing is not exercised; max_messages 4 / 10; one "
         "fixed pair of source row sets.",
-   technique="TLA+ whole-run oracle (TLC) + execution of sampled configurations on the real code + TLC trace validation at P-level",
+   technique="TLA+ whole-run oracle (TLC) + execution of sampled configurations on the real code + TLC trace validation at P-level; "
+             "PostOffice.tla model-checked and replayed lock-step (every node and edge of the TLC state graph) on the real PostOffice",
    design="4/C01"),
  "C18": dict(
    text="spec/Hits.tla defines hits (maximal runs of in-record samples at or above the per-channel threshold, with time, length, area, "
@@ -249,7 +255,8 @@ CLAIMED = {
    design="4/C18"),
  "C19": dict(
    text="spec/Peaks.tla defines gap-threshold clustering of hits into peaks (extensions, maximum duration, area and channel cuts), "
-        "merging, replacing merged peaks, the symmetric moving average, the area-fraction index, widths and area deciles (exact rationals), "
+        "merging (one group, and several groups in one call with 3-sample buffers so that merged peaks are down-sampled), replacing merged "
+        "peaks, the symmetric moving average, the area-fraction index, widths and area deciles (exact rationals), "
         "highest-density regions (smallest top level set reaching the fraction, as index runs, with its amplitude), "
         "the summed waveform of a peak over two channels with per-channel gains and its down-sampling into a fixed buffer, and a "
         "transcription of local-minimum splitting; TLC enumerates every input of the scope, checks the conservation laws (area and hit "
